@@ -1,7 +1,11 @@
 (* C07 — the registry of every message model: (message id, header version, dialect) -> model.  The oracle's
    only entry point (oracle/drv_c07.ml).  DEFINITIONS ONLY. *)
 From JT.Base Require Import Prelude Fmt.
-From JT.Model Require Import Msg_simple Msg_text Params.
+From JT.Model Require Import Msg_simple Msg_text Params Msg_location.
 
 Definition msg_all (u2g g2u : list N -> list N) (gdom : list N -> bool) (id ver d : N) : option msg :=
-  if id =? 0x8103 then Some (m_8103 u2g g2u gdom) else msg_text u2g g2u gdom id ver d.
+  if id =? 0x8103 then Some (m_8103 u2g g2u gdom)
+  else match msg_location id with
+       | Some m => Some m
+       | None => msg_text u2g g2u gdom id ver d
+       end.
